@@ -15,7 +15,7 @@ expression statement (e.g. set.add), index change, swapped call arguments.
 import ast, json, os, random, shutil, subprocess, sys, time, hashlib
 from concurrent.futures import ThreadPoolExecutor
 
-REPO = "/repo"
+REPO = os.environ.get("MUTSWEEP_REPO", "/repo")
 PKG = "Geometry3D"
 SKIP_DIRS = ("visualization",)
 SKIP_FILES = ("logger.py", "__init__.py")
